@@ -615,6 +615,9 @@ pub fn process<I: BufRead, O: Write>(
                         // As in C, white space may separate the macro name from its argument list
                         let mut rex = format!("\\b{}\\s*\\(", mcro);
                         let params = caps.get(2).unwrap().as_str();
+                        // A parameter name inside a character constant of the body is not a parameter
+                        let mut char_constants = Vec::new();
+                        value = Context::mask_char_constants(&value, &mut char_constants);
                         if !params.is_empty() {
                             for v in caps.get(2).unwrap().as_str().split(',') {
                                 let vx = v.trim();
@@ -638,6 +641,9 @@ pub fn process<I: BufRead, O: Write>(
                             rex = rex.strip_suffix(',').unwrap().to_string();
                         }
                         rex += "\\)";
+                        for (i, c) in char_constants.iter().enumerate().rev() {
+                            value = value.replace(&format!("\u{1}{}\u{1}", i), c);
+                        }
                         value = value.replace("##", ""); // Double hash
                         debug!("regex:{}", &rex);
                         context.define_ex(mcro, (rex, value));
